@@ -121,6 +121,19 @@ reg(part('memmem_meta', 'src/memmem/searcher.rs', 'memmem::searcher', cfg='x86_6
                      'impl Default for PrefilterConfig', 'impl PrefilterConfig',
                      'use crate::arch::aarch64::neon::packedpairasneon', 'use crate::arch::wasm32::simd128::packedpairassimd128'],
          drop_fields=['SearcherKind.simd128', 'SearcherKind.neon', 'PrefilterKind.simd128', 'PrefilterKind.neon']))
+# the meta searcher under the other targets' cfg (their arms of Searcher::new and their kind functions)
+OTHER = dict(target_arch='riscv64', target_feature=[], feature=['alloc'], target_endian='little', target_pointer_width='64')
+META_DROP = ['struct SearcherRev', 'enum SearcherRevKind', 'impl SearcherRev', 'enum PrefilterConfig',
+             'impl Default for PrefilterConfig', 'impl PrefilterConfig']
+reg(part('memmem_meta_aarch64', 'src/memmem/searcher.rs', 'memmem::searcher', cfg='aarch64', defunc=X15, rewrites=ISA,
+         drop_items=META_DROP, drop_fields=['SearcherKind.simd128', 'SearcherKind.sse2', 'SearcherKind.avx2',
+                                            'PrefilterKind.simd128', 'PrefilterKind.sse2', 'PrefilterKind.avx2']))
+reg(part('memmem_meta_wasm32', 'src/memmem/searcher.rs', 'memmem::searcher', cfg='wasm32', defunc=X15, rewrites=ISA,
+         drop_items=META_DROP, drop_fields=['SearcherKind.neon', 'SearcherKind.sse2', 'SearcherKind.avx2',
+                                            'PrefilterKind.neon', 'PrefilterKind.sse2', 'PrefilterKind.avx2']))
+reg(part('memmem_meta_other', 'src/memmem/searcher.rs', 'memmem::searcher', cfg='other', defunc=X15,
+         drop_items=META_DROP, drop_fields=['SearcherKind.neon', 'SearcherKind.simd128', 'SearcherKind.sse2', 'SearcherKind.avx2',
+                                            'PrefilterKind.neon', 'PrefilterKind.simd128', 'PrefilterKind.sse2', 'PrefilterKind.avx2']))
 
 clone_part('all_memchr_32', 'all_memchr')
 
@@ -148,6 +161,28 @@ BUILDS = {
     # 32-bit targets: the same portable wiring with a 4-byte usize (the SWAR chunk is 4 bytes wide)
     'other32': dict(parts=['ext', 'vector', 'generic_memchr', 'all_memchr_32', 'memchr_top_other', 'root_reexport'], prelude=P0,
                     usize_bytes=4),
+    'aarch64_full': dict(parts=['ext', 'vector', 'vector_neon', 'generic_memchr', 'all_memchr', 'neon_memchr', 'aarch64_memchr',
+                                'memchr_top_aarch64', 'root_reexport', 'all_mod', 'all_rabinkarp', 'all_packedpair', 'all_default_rank',
+                                'generic_packedpair', 'neon_packedpair', 'all_twoway', 'all_shiftor', 'cow', 'memmem_mod',
+                                'memmem_meta_aarch64', 'memmem_searcher'],
+                         prelude=P0 + ['prelude/isa.vrs', 'prelude/x_eqrk.vrs', 'prelude/x_pp.vrs', 'prelude/x_tw.vrs', 'prelude/x_twc.vrs',
+                                       'prelude/x_so.vrs', 'prelude/x_memmem.vrs', 'prelude/x_meta.vrs']),
+    'wasm32_full': dict(parts=['ext', 'vector', 'vector_wasm', 'generic_memchr', 'all_memchr', 'simd128_memchr', 'wasm32_memchr',
+                               'memchr_top_wasm32', 'root_reexport', 'all_mod', 'all_rabinkarp', 'all_packedpair', 'all_default_rank',
+                               'generic_packedpair', 'simd128_packedpair', 'all_twoway', 'all_shiftor', 'cow', 'memmem_mod',
+                               'memmem_meta_wasm32', 'memmem_searcher'],
+                        prelude=P0 + ['prelude/isa.vrs', 'prelude/x_eqrk.vrs', 'prelude/x_pp.vrs', 'prelude/x_tw.vrs', 'prelude/x_twc.vrs',
+                                      'prelude/x_so.vrs', 'prelude/x_memmem.vrs', 'prelude/x_meta.vrs']),
+    'other_full': dict(parts=['ext', 'vector', 'generic_memchr', 'all_memchr', 'memchr_top_other', 'root_reexport', 'all_mod',
+                              'all_rabinkarp', 'all_packedpair', 'all_default_rank', 'all_twoway', 'all_shiftor', 'cow', 'memmem_mod',
+                              'memmem_meta_other', 'memmem_searcher'],
+                       prelude=P0 + ['prelude/x_eqrk.vrs', 'prelude/x_pp.vrs', 'prelude/x_tw.vrs', 'prelude/x_twc.vrs', 'prelude/x_so.vrs',
+                                     'prelude/x_memmem.vrs', 'prelude/x_meta.vrs']),
+    'other32_full': dict(parts=['ext', 'vector', 'generic_memchr', 'all_memchr_32', 'memchr_top_other', 'root_reexport', 'all_mod',
+                                'all_rabinkarp', 'all_packedpair', 'all_default_rank', 'all_twoway', 'all_shiftor', 'cow', 'memmem_mod',
+                                'memmem_meta_other', 'memmem_searcher'],
+                         prelude=P0 + ['prelude/x_eqrk.vrs', 'prelude/x_pp.vrs', 'prelude/x_tw.vrs', 'prelude/x_twc.vrs', 'prelude/x_so.vrs',
+                                       'prelude/x_memmem.vrs', 'prelude/x_meta.vrs'], usize_bytes=4),
     # S variant (release semantics, type invariants only): decides C05 for the packed-pair finders
     'safe': dict(parts=['ext', 'stub_root', 's_vector', 's_all_mod', 's_all_packedpair', 'all_default_rank',
                         's_generic_packedpair', 's_sse2_packedpair', 's_avx2_packedpair'],
@@ -163,4 +198,4 @@ BUILDS = {
     'dev_so': dict(parts=['ext', 'vector', 'all_mod', 'all_shiftor'], prelude=P0 + ['prelude/x_so.vrs']),
 }
 
-CONFIGS_EXTRA = {'union': UNION, 'aarch64': AARCH64, 'wasm32': WASM32}
+CONFIGS_EXTRA = {'union': UNION, 'aarch64': AARCH64, 'wasm32': WASM32, 'other': OTHER}
